@@ -95,6 +95,18 @@ def run_program(prog, strategy, trace=False, tick_budget=2):
                         with console.capture() as cap:
                             console.print("\n".join(label_text(x) for x in labels))
                         c["captured"] = labels_in(cap.get())
+                    elif k == "bufcapture":
+                        # a capture begun while the thread already has pending (buffered) output
+                        la = [P(op["id"], 1)]
+                        lb = [P(op["id2"], i) for i in range(1, op["n"] + 1)]
+                        calls.append(dict(kind="print", t=tn, labels=la, captured=[]))
+                        c = dict(kind="capture", t=tn, labels=lb, captured=[])
+                        calls.append(c)
+                        with console:
+                            console.print(label_text(la[0]))
+                            with console.capture() as cap:
+                                console.print("\n".join(label_text(x) for x in lb))
+                            c["captured"] = labels_in(cap.get())
                     elif k == "export":
                         (console.export_html if op.get("html") else console.export_text)(clear=False)
                     elif k == "update":
@@ -155,7 +167,7 @@ def random_program(rng, display):
     def ops_for():
         ops = []
         for _ in range(rng.randint(1, 2)):
-            kinds = ["print", "print", "log", "capture", "export"]
+            kinds = ["print", "print", "log", "capture", "capture", "bufcapture", "export"]
             if display == "live":
                 kinds += ["update", "update", "refresh"]
             elif display == "progress":
@@ -167,6 +179,9 @@ def random_program(rng, display):
             elif k == "log":
                 pid[0] += 1
                 ops.append(dict(k=k, id=pid[0]))
+            elif k == "bufcapture":
+                pid[0] += 2
+                ops.append(dict(k=k, id=pid[0] - 1, id2=pid[0], n=rng.choice([1, 2])))
             elif k == "export":
                 ops.append(dict(k=k, html=rng.random() < 0.5))
             elif k == "update":
